@@ -11,7 +11,7 @@ EXTENDS Integers, Sequences
 
 FnArity == [one |-> 0, two |-> 0,
             id |-> 1, neg |-> 1, dbl |-> 1, inc |-> 1, step |-> 1, dsum |-> 1, loopinc |-> 1,
-            add |-> 2, sub |-> 2, mul |-> 2, sel |-> 2,
+            add |-> 2, sub |-> 2, mul |-> 2, sel |-> 2, cut |-> 2,
             mad |-> 3]
 
 FApply(fn, a) ==
@@ -28,6 +28,7 @@ FApply(fn, a) ==
       [] fn = "sub"  -> a[1] - a[2]
       [] fn = "mul"  -> a[1] * a[2]
       [] fn = "sel"  -> IF a[1] > a[2] THEN a[1] - a[2] ELSE 3 * a[2]
+      [] fn = "cut"  -> IF a[1] > a[2] THEN a[1] - a[2] ELSE a[1]   \* Python twin: local re-bound inside a one-sided if
       [] fn = "mad"  -> a[1] * a[2] + a[3]
 
 \* functions whose Python twin no translator (symbolic, code generators, SBML) can represent
